@@ -912,7 +912,40 @@ pub struct WriteTxn<'a> {
     memtable: MemTable,
 }
 
+/// Everything a [`WriteTxn`] has buffered at one point in time (see [`WriteTxn::savepoint`]).
+pub struct TxnSavepoint {
+    created_nodes: Vec<(ExternalId, LabelId, InternalNodeId)>,
+    pending_label_additions: Vec<(InternalNodeId, LabelId)>,
+    pending_label_removals: Vec<(InternalNodeId, LabelId)>,
+    created_external_ids: std::collections::HashSet<ExternalId>,
+    pending_vectors: Vec<(InternalNodeId, Vec<f32>)>,
+    memtable: MemTable,
+}
+
 impl<'a> WriteTxn<'a> {
+    /// Captures the buffered writes so that a failing statement can be undone without
+    /// abandoning the whole transaction.
+    pub fn savepoint(&self) -> TxnSavepoint {
+        TxnSavepoint {
+            created_nodes: self.created_nodes.clone(),
+            pending_label_additions: self.pending_label_additions.clone(),
+            pending_label_removals: self.pending_label_removals.clone(),
+            created_external_ids: self.created_external_ids.clone(),
+            pending_vectors: self.pending_vectors.clone(),
+            memtable: self.memtable.clone(),
+        }
+    }
+
+    /// Discards every write buffered after `savepoint` was taken.
+    pub fn rollback_to(&mut self, savepoint: TxnSavepoint) {
+        self.created_nodes = savepoint.created_nodes;
+        self.pending_label_additions = savepoint.pending_label_additions;
+        self.pending_label_removals = savepoint.pending_label_removals;
+        self.created_external_ids = savepoint.created_external_ids;
+        self.pending_vectors = savepoint.pending_vectors;
+        self.memtable = savepoint.memtable;
+    }
+
     pub fn create_node(
         &mut self,
         external_id: ExternalId,
